@@ -72,6 +72,8 @@ struct Cache {
     pending: Option<Option<(u16, u32)>>,
     queries_seen: u64,
     removed: bool,
+    /// administratively disabled (DisableRpki): configured, but no session is wanted
+    disabled: bool,
     told_serial: u32,
 }
 
@@ -140,7 +142,7 @@ impl Check for RtrClient {
         let n = rng.range(4, if thorough { 40 } else { 24 });
         for _ in 0..n {
             let k = rng.below(n_caches);
-            match rng.weighted(&[24, 22, 10, 6, 6, 5, 6, 3, 3, 4]) {
+            match rng.weighted(&[24, 22, 10, 6, 6, 5, 6, 3, 3, 4, 3, 3, 3]) {
                 0 => ops.push(jarr!["respond", k, *rng.pick(&["full", "full", "full", "reset", "partial"]), rng.below(200)]),
                 1 => {
                     let adds: Vec<Json> = (0..rng.range(0, 3)).map(|_| Json::from(rng.below(24))).collect();
@@ -154,6 +156,9 @@ impl Check for RtrClient {
                 6 => ops.push(jarr!["softreset", k]),
                 7 => ops.push(jarr!["delete", k]),
                 8 => ops.push(jarr!["add", k]),
+                10 => ops.push(jarr!["disable", k]),
+                11 => ops.push(jarr!["enable", k]),
+                12 => ops.push(jarr!["hardreset", k]),
                 _ => ops.push(jarr!["newsession", k]),
             }
         }
@@ -174,7 +179,7 @@ impl Check for RtrClient {
 
     fn info(&self) -> CheckInfo {
         CheckInfo {
-            rule: "1-3 scripted caches (v0/v1) with VRP sets and serial history; ops: cache answers the pending query (full response, incremental response, Cache Reset, or a response cut off mid-PDU), mutates its set, sends Serial Notify, sends PDU types the client does not use (router key 9, 11) or an Error Report, drops the connection (FIN/RST), starts a new session id, operator adds / deletes / soft-resets the cache, virtual time passes (reconnect back-off 10 s); transport with seeded fragmentation and latency. Oracle at quiescence after every op: VRPs installed for a cache equal what that cache has told the client as of its last completed End-of-Data, nothing of a cache whose session ended or that was deleted, other caches untouched; progress: a notify with a new serial and a Cache Reset are answered by a query. non-trivial = at least one incremental round or session loss happened".into(),
+            rule: "1-3 scripted caches (v0/v1) with VRP sets and serial history; ops: cache answers the pending query (full response, incremental response, Cache Reset, or a response cut off mid-PDU), mutates its set, sends Serial Notify, sends PDU types the client does not use (router key 9, 11) or an Error Report, drops the connection (FIN/RST), starts a new session id, operator adds / deletes / disables / enables / soft-resets / hard-resets the cache, virtual time passes (reconnect back-off 10 s); transport with seeded fragmentation and latency. Oracle at quiescence after every op: VRPs installed for a cache equal what that cache has told the client as of its last completed End-of-Data, nothing of a cache whose session ended or that was deleted, other caches untouched; progress: a notify with a new serial and a Cache Reset are answered by a query. non-trivial = at least one incremental round or session loss happened".into(),
             components_real: vec!["rpki::RpkiClient::{try_connect,serve,serve_inner}".into(), "packet::rpki::RtrCodec under tokio_util::codec::Framed".into(), "TableManager::{rpki_reset,rpki_insert,rpki_withdraw,rpki_drop_all}, table::RpkiTable".into(), "GrpcService::{add_rpki,delete_rpki,reset_rpki}".into()],
             components_stubbed: vec!["TCP, clock, the RTR caches (scripted RFC 6810/8210 server model)".into()],
             assumptions: vec!["a cache that cannot answer incrementally sends Cache Reset and then expects a Reset Query (RFC 8210 s8.3)".into()],
@@ -212,6 +217,7 @@ async fn run(case: Json, tol: Tolerate) -> Outcome {
             pending: None,
             queries_seen: 0,
             removed: true,
+            disabled: false,
             told_serial: 0,
         })
         .collect();
@@ -239,6 +245,7 @@ async fn run(case: Json, tol: Tolerate) -> Outcome {
                 if caches[k].removed {
                     let _ = w.grpc.add_rpki(tonic::Request::new(api::AddRpkiRequest { address: caches[k].addr.ip().to_string(), port: 323, ..Default::default() })).await;
                     caches[k].removed = false;
+                    caches[k].disabled = false;
                     out.hit("op.add-cache");
                 }
             }
@@ -249,6 +256,31 @@ async fn run(case: Json, tol: Tolerate) -> Outcome {
                     caches[k].told = None;
                     losses += 1;
                     out.hit("fault.cache-deleted(cancel-token)");
+                }
+            }
+            "disable" => {
+                if !caches[k].removed && !caches[k].disabled {
+                    let _ = w.grpc.disable_rpki(tonic::Request::new(api::DisableRpkiRequest { address: caches[k].addr.ip().to_string(), port: 323 })).await;
+                    caches[k].disabled = true;
+                    caches[k].told = None;
+                    losses += 1;
+                    out.hit("fault.cache-disabled(cancel-token)");
+                }
+            }
+            "enable" => {
+                if !caches[k].removed && caches[k].disabled {
+                    let _ = w.grpc.enable_rpki(tonic::Request::new(api::EnableRpkiRequest { address: caches[k].addr.ip().to_string(), port: 323 })).await;
+                    caches[k].disabled = false;
+                    out.hit("op.cache-enabled");
+                }
+            }
+            "hardreset" => {
+                if !caches[k].removed && !caches[k].disabled {
+                    // the session is cancelled and a new connection attempt starts at once
+                    let _ = w.grpc.reset_rpki(tonic::Request::new(api::ResetRpkiRequest { address: caches[k].addr.ip().to_string(), port: 323, soft: false, ..Default::default() })).await;
+                    caches[k].told = None;
+                    losses += 1;
+                    out.hit("fault.cache-hard-reset(cancel-token)");
                 }
             }
             "softreset" => {
@@ -416,7 +448,7 @@ async fn run(case: Json, tol: Tolerate) -> Outcome {
         }
         for (k, c) in caches.iter().enumerate() {
             let have = installed.get(&c.addr.ip()).cloned().unwrap_or_default();
-            let session_up = c.conn.is_some() && !c.removed;
+            let session_up = c.conn.is_some() && !c.removed && !c.disabled;
             match (&c.told, session_up) {
                 (Some(t), true) => {
                     // mid-response (query pending but unanswered) is fine: `told` is the last completed End-of-Data
@@ -431,7 +463,7 @@ async fn run(case: Json, tol: Tolerate) -> Outcome {
                 }
                 (_, false) => {
                     if !have.is_empty() {
-                        fail!(format!("vrps-survive-session-end/{}", if c.removed { "cache-deleted" } else { "session-lost" }), "op {} {}: cache {} has no session but {} VRPs are installed: {:?}", opi, op.to_compact(), k, have.len(), have.iter().take(3).collect::<Vec<_>>());
+                        fail!(format!("vrps-survive-session-end/{}", if c.removed { "cache-deleted" } else if c.disabled { "cache-disabled" } else { "session-lost" }), "op {} {}: cache {} has no session but {} VRPs are installed: {:?}", opi, op.to_compact(), k, have.len(), have.iter().take(3).collect::<Vec<_>>());
                     }
                 }
                 (None, true) => {
